@@ -21,8 +21,37 @@ pub mod simhook {
     /// called when a lock is held by someone else: true = the simulator ran the other caller, try
     /// again; false = not simulated here, block for real
     pub type BlockedFn = fn(&'static str) -> bool;
+    /// a caller has taken (or tried to take) the lock at this address
+    pub type TouchedFn = fn(usize);
+    /// should a `try_*` on the lock at this address find it taken? (another simulated caller uses
+    /// the same lock; in a real execution it may be inside its critical section right now)
+    pub type ContendedFn = fn(usize) -> bool;
     static POINT: AtomicUsize = AtomicUsize::new(0);
     static BLOCKED: AtomicUsize = AtomicUsize::new(0);
+    static TOUCHED: AtomicUsize = AtomicUsize::new(0);
+    static CONTENDED: AtomicUsize = AtomicUsize::new(0);
+    pub fn install_contention(t: TouchedFn, c: ContendedFn) {
+        TOUCHED.store(t as usize, Ordering::SeqCst);
+        CONTENDED.store(c as usize, Ordering::SeqCst);
+    }
+    #[inline]
+    pub fn touched(addr: usize) {
+        let f = TOUCHED.load(Ordering::Relaxed);
+        if f != 0 && NO_YIELD.with(|c| c.get()) == 0 {
+            let f: TouchedFn = unsafe { std::mem::transmute(f) };
+            f(addr)
+        }
+    }
+    #[inline]
+    pub fn contended(addr: usize) -> bool {
+        let f = CONTENDED.load(Ordering::Relaxed);
+        if f != 0 && NO_YIELD.with(|c| c.get()) == 0 {
+            let f: ContendedFn = unsafe { std::mem::transmute(f) };
+            f(addr)
+        } else {
+            false
+        }
+    }
     std::thread_local! {
         static NO_YIELD: std::cell::Cell<u32> = std::cell::Cell::new(0);
     }
@@ -66,7 +95,7 @@ pub mod simhook {
 
 pub mod sync {
     pub use std::sync::*;
-    use super::simhook::{blocked, point, NoYield};
+    use super::simhook::{blocked, contended, point, touched, NoYield};
     // (explicit `pub use`: a private import would shadow the glob re-export and hide the name)
     pub use std::sync::{LockResult, TryLockError, TryLockResult};
 
@@ -88,6 +117,7 @@ pub mod sync {
             // one scheduling point per call; the retries after `blocked` are not points, so that
             // the simulator can tell "both callers keep failing" (deadlock) from progress
             point("mutex.lock");
+            touched(self as *const _ as *const u8 as usize);
             loop {
                 match self.inner.try_lock() {
                     Ok(g) => return Ok(g),
@@ -102,6 +132,13 @@ pub mod sync {
         }
         pub fn try_lock(&self) -> TryLockResult<std::sync::MutexGuard<'_, T>> {
             point("mutex.try_lock");
+            let addr = self as *const _ as *const u8 as usize;
+            let busy = contended(addr);
+            touched(addr);
+            if busy {
+                // another simulated caller uses this lock too: this time it is "inside"
+                return Err(TryLockError::WouldBlock);
+            }
             self.inner.try_lock()
         }
     }
@@ -150,6 +187,7 @@ pub mod sync {
     impl<T: ?Sized> RwLock<T> {
         pub fn read(&self) -> LockResult<std::sync::RwLockReadGuard<'_, T>> {
             point("rwlock.read");
+            touched(self as *const _ as *const u8 as usize);
             loop {
                 if self.writers_waiting.load(std::sync::atomic::Ordering::SeqCst) > 0 {
                     // a writer is queued: a new reader waits behind it
@@ -176,6 +214,7 @@ pub mod sync {
                 }
             };
             point("rwlock.write");
+            touched(self as *const _ as *const u8 as usize);
             loop {
                 match self.inner.try_write() {
                     Ok(g) => {
@@ -203,10 +242,22 @@ pub mod sync {
         }
         pub fn try_read(&self) -> TryLockResult<std::sync::RwLockReadGuard<'_, T>> {
             point("rwlock.try_read");
+            let addr = self as *const _ as *const u8 as usize;
+            let busy = contended(addr);
+            touched(addr);
+            if busy {
+                return Err(TryLockError::WouldBlock);
+            }
             self.inner.try_read()
         }
         pub fn try_write(&self) -> TryLockResult<std::sync::RwLockWriteGuard<'_, T>> {
             point("rwlock.try_write");
+            let addr = self as *const _ as *const u8 as usize;
+            let busy = contended(addr);
+            touched(addr);
+            if busy {
+                return Err(TryLockError::WouldBlock);
+            }
             self.inner.try_write()
         }
     }
